@@ -1,13 +1,13 @@
 CONSTANTS
   MaxW = 2
-  InitSize = 10
-  Program <- ProgD
+  InitSize = 1
+  Program <- ProgA
   RelPublish = TRUE
   AcqWorker = TRUE
   RelDone = TRUE
   AcqWait = TRUE
   LockedNotify = TRUE
-  SpuriousWake = FALSE
+  SpuriousWake = TRUE
 SPECIFICATION FairSpec
 INVARIANTS NoDataRace ExactlyOnce TypeOK MutexOK
 PROPERTY Termination
